@@ -58,6 +58,15 @@ class AbstractBlock(CborArray):
     crc_value_name = 'crc_value'
     ''' The name of the CRC-value field. '''
 
+    def do_dissect(self, s):
+        # Keep the items as received, the CRC covers those and not
+        # a re-encoding of the decoded field values
+        item = s
+        while isinstance(item, cbor2.CBORTag):
+            item = item.value
+        self._rx_items = list(item) if isinstance(item, list) else None
+        return CborArray.do_dissect(self, s)
+
     def fill_fields(self):
         ''' Fill all fields so that the block is the full size it needs
         to be for encoding encoding with build().
@@ -76,6 +85,9 @@ class AbstractBlock(CborArray):
         '''
         if self.crc_type_name is None or self.crc_value_name is None:
             return
+
+        # from here on the CRC belongs to the current field values
+        self._rx_items = None
 
         crc_type = self.getfieldval(self.crc_type_name)
         if crc_type == 0:
@@ -101,17 +113,26 @@ class AbstractBlock(CborArray):
 
         crc_type = self.getfieldval(self.crc_type_name)
         crc_value = self.fields.get(self.crc_value_name)
+        rx_items = getattr(self, '_rx_items', None)
+        if rx_items is not None and len(rx_items) != len(self.build()):
+            # a decoded block with items missing or left over
+            return False
         if crc_type == 0:
             valid = crc_value is None
         else:
             defn = AbstractBlock.CRC_DEFN[crc_type]
-            # Encode with a zero-valued CRC field
-            self.fields[self.crc_value_name] = defn['encode'](0)
-            pre_crc = cbor2.dumps(self.build())
+            if rx_items is not None:
+                # A decoded block is checked as it was received,
+                # with a zero-valued CRC field (always the last item)
+                pre_crc = cbor2.dumps(rx_items[:-1] + [defn['encode'](0)])
+            else:
+                # Encode with a zero-valued CRC field
+                self.fields[self.crc_value_name] = defn['encode'](0)
+                pre_crc = cbor2.dumps(self.build())
+                # Restore old value
+                self.fields[self.crc_value_name] = crc_value
             crc_int = defn['func'](pre_crc)
             valid = crc_value == defn['encode'](crc_int)
-            # Restore old value
-            self.fields[self.crc_value_name] = crc_value
 
         return valid
 
